@@ -57,10 +57,13 @@ type Reader struct {
 	Hide  map[string]bool // path missing from Paths()
 }
 
+// PK is the key a path is stored under: directory and language id together (two paths may share a directory).
+func PK(p lang.Path) string { return p.Path + "\x00" + p.LanguageID }
+
 func (r *Reader) Paths(ctx context.Context) []lang.Path {
 	out := make([]lang.Path, 0, len(r.Order))
 	for _, p := range r.Order {
-		if r.Hide[p.Path] {
+		if r.Hide[PK(p)] {
 			continue
 		}
 		out = append(out, p)
@@ -69,10 +72,10 @@ func (r *Reader) Paths(ctx context.Context) []lang.Path {
 }
 
 func (r *Reader) PathContext(p lang.Path) (*decoder.PathContext, error) {
-	if r.Fail[p.Path] {
+	if r.Fail[PK(p)] {
 		return nil, fmt.Errorf("injected: path context of %q unreadable", p.Path)
 	}
-	c, ok := r.Ctxs[p.Path]
+	c, ok := r.Ctxs[PK(p)]
 	if !ok {
 		return nil, fmt.Errorf("path not found: %q", p.Path)
 	}
@@ -166,14 +169,14 @@ func Build(spec *Spec) *World {
 				files[i], files[j] = files[j], files[i]
 			}
 		}
-		w.Texts[ps.Path] = map[string]string{}
+		w.Texts[PK(p)] = map[string]string{}
 		for _, fs := range files {
 			f := ParseFile(fs.Name, fs.Text)
 			if f == nil {
 				continue
 			}
 			pc.Files[fs.Name] = f
-			w.Texts[ps.Path][fs.Name] = fs.Text
+			w.Texts[PK(p)][fs.Name] = fs.Text
 		}
 		if ps.Funcs != nil {
 			pc.Functions = ps.Funcs()
@@ -181,10 +184,12 @@ func Build(spec *Spec) *World {
 		if !ps.NoValidators {
 			pc.Validators = stockValidators()
 		}
-		w.Reader.Ctxs[ps.Path] = pc
+		w.Reader.Ctxs[PK(p)] = pc
 	}
 	w.Decoder = decoder.NewDecoder(w.Reader)
 	dc := decoder.NewDecoderContext()
+	// links are decorated with these; a server always sets them
+	dc.UtmSource, dc.UtmMedium, dc.UseUtmContent = "verif-ls", "verif-client", true
 	if spec.HookItems >= 0 {
 		dc.CompletionHooks[HookName] = hookFunc(spec.HookItems, "hk")
 		dc.CompletionHooks[HookName2] = hookFunc(spec.HookItems, "hz")
@@ -205,7 +210,7 @@ func Build(spec *Spec) *World {
 		if err != nil {
 			w.BuildErrs = append(w.BuildErrs, "targets:"+err.Error())
 		}
-		w.Reader.Ctxs[ps.Path].ReferenceTargets = t
+		w.Reader.Ctxs[PK(w.Paths[i])].ReferenceTargets = t
 	}
 	for i, ps := range spec.Paths {
 		if ps.NoCollect || ps.Schema == nil {
@@ -219,7 +224,7 @@ func Build(spec *Spec) *World {
 		if err != nil {
 			w.BuildErrs = append(w.BuildErrs, "origins:"+err.Error())
 		}
-		w.Reader.Ctxs[ps.Path].ReferenceOrigins = o
+		w.Reader.Ctxs[PK(w.Paths[i])].ReferenceOrigins = o
 	}
 	return w
 }
@@ -249,7 +254,7 @@ func (w *World) PathDecoder(i int) (*decoder.PathDecoder, error) {
 
 // FileNames returns the sorted file names of path i that were parsed.
 func (w *World) FileNames(i int) []string {
-	m := w.Texts[w.Paths[i].Path]
+	m := w.Texts[PK(w.Paths[i])]
 	out := make([]string, 0, len(m))
 	for n := range m {
 		out = append(out, n)
@@ -258,8 +263,36 @@ func (w *World) FileNames(i int) []string {
 	return out
 }
 
+// TextsByDir returns the files of every path whose directory is dir (paths differing only in language id share a directory).
+func (w *World) TextsByDir(dir string) (map[string]string, bool) {
+	var out map[string]string
+	n := 0
+	for _, p := range w.Paths {
+		if p.Path != dir {
+			continue
+		}
+		m := w.Texts[PK(p)]
+		n++
+		if n == 1 {
+			out = m
+			continue
+		}
+		if n == 2 {
+			c := map[string]string{}
+			for k, v := range out {
+				c[k] = v
+			}
+			out = c
+		}
+		for k, v := range m {
+			out[k] = v
+		}
+	}
+	return out, n > 0
+}
+
 // Ctx returns the PathContext of path i.
-func (w *World) Ctx(i int) *decoder.PathContext { return w.Reader.Ctxs[w.Paths[i].Path] }
+func (w *World) Ctx(i int) *decoder.PathContext { return w.Reader.Ctxs[PK(w.Paths[i])] }
 
 // Single is a convenience for one-path, one-file worlds.
 func Single(id string, sch func() *schema.BodySchema, file, text string) *Spec {
